@@ -210,8 +210,12 @@ PROPS["C16"] = dict(
           "symbolic (free-variable) element and tail; the 18 pair-list functions on all lists of length <= 3/4 over 2/3 "
           "values (pairs of lists, all counts up to length + 1); NOR, HNO, HAP"),
     trusted_base=DATA_TB, assumptions=DATA_ASM,
-    explanation=("Proved for all lists: the vector conversions equal the closed forms (repeated cons normal forms). Bounded "
-                 "in-kernel grid (lists of length <= 3 over {0,1}) for all constructors/observers and library functions."))
+    explanation=("Theorems for ALL lists of closed element terms and ALL numbers, on the generated constants: nil/cons/head/tail/"
+                 "is_nil of the pair, Church, Scott and Parigot encodings on encoded lists, and head/tail/is_nil of a cons for "
+                 "ARBITRARY element and tail terms; the four Vec conversions equal the closed forms that repeated cons produces; "
+                 "each of the 18 pair-list library functions reduces to the encoding of the corresponding Coq list operation "
+                 "(Proofs/PairList.v, OtherLists.v: Z-unfolding with induction over the list, rewriting modulo beta via a "
+                 "setoid on red); hence NOR/HNO return it (C07). Termination of HAP: bounded in-kernel grid (length <= 3 over {0,1})."))
 PROPS["C17"] = dict(
     suites=["ops:laws", "ops:convert"], oracle_re=r"oracle:C17:", gen=True,
     rule=("each law with free-variable payloads (two assignments) and with random closed normal payloads, both sides "
